@@ -3,10 +3,13 @@ package c09
 import (
 	"bytes"
 	"compress/zlib"
+	"crypto/aes"
 	"encoding/binary"
 	"github.com/Tnze/go-mc/chat"
+	"github.com/Tnze/go-mc/net/CFB8"
 	"io"
 	"reflect"
+	"verifsim/simrt"
 
 	"github.com/Tnze/go-mc/chat/sign"
 	"github.com/Tnze/go-mc/nbt"
@@ -796,9 +799,24 @@ func genWriteCase(tp *tape.Tape, op string) *writeCase {
 		th := []int{0, 1, 16, 64, 256}[tp.Choose(5)]
 		p := pk.Packet{ID: gen.PacketID(tp), Data: gen.Fill(tp, tp.Choose(300), 4, 1)}
 		if op == "conn.writepacket" {
+			if tp.Bool(1, 4) {
+				// longer than typical block/batch sizes of a wrapping writer
+				p.Data = gen.Fill(tp, 4000+tp.Choose(9000), 4, 2)
+			}
+			var key, iv []byte
+			if tp.Bool(1, 2) {
+				pWriteEncrypted.Hit()
+				key, iv = tp.Bytes(16), tp.Bytes(16)
+			}
 			wc.enc = func(w io.Writer) (int64, error) {
 				c := &mcnet.Conn{Writer: w}
 				c.SetThreshold(th)
+				if key != nil {
+					// the cipher wraps the socket: c.Socket is what SetCipher encrypts onto
+					c.Socket = &simio.Conn{W: w}
+					blk, _ := aes.NewCipher(key)
+					c.SetCipher(CFB8.NewCFB8Encrypt(blk, iv), CFB8.NewCFB8Decrypt(blk, iv))
+				}
 				return -1, c.WritePacket(p)
 			}
 		} else {
@@ -932,3 +950,5 @@ func genWriteCase(tp *tape.Tape, op string) *writeCase {
 
 var _ = reflect.DeepEqual
 var _ = zlib.NewWriter
+
+var pWriteEncrypted = simrt.NewProbe("write.conn.writepacket.through.an.installed.cipher")
